@@ -48,7 +48,16 @@ type World struct {
 }
 
 func shortPath(p string) string {
+	if !inRepoPath(p) {
+		return p
+	}
 	return strings.TrimPrefix(strings.TrimPrefix(p, RepoModule), "/")
+}
+
+// inRepoPath reports whether a package path belongs to the module under verification (and not to a module whose
+// path merely starts with the same characters, such as gontainer-helpers).
+func inRepoPath(p string) bool {
+	return p == RepoModule || strings.HasPrefix(p, RepoModule+"/")
 }
 
 // FuncKey returns the contract key of an SSA function: `pkg:Name`, `pkg:(*T).Name`, `pkg:Parent$1`.
@@ -103,7 +112,7 @@ func Load(dir string, assumedDir string) (*World, error) {
 	nerr := 0
 	packages.Visit(pkgs, nil, func(p *packages.Package) {
 		for _, e := range p.Errors {
-			if strings.HasPrefix(p.PkgPath, RepoModule) {
+			if inRepoPath(p.PkgPath) {
 				fmt.Fprintf(os.Stderr, "load error: %s: %v\n", p.PkgPath, e)
 				nerr++
 			}
@@ -283,7 +292,7 @@ func IsRepo(f *ssa.Function) bool {
 	} else if f.Object() != nil {
 		p = f.Object().Pkg()
 	}
-	return p != nil && strings.HasPrefix(p.Path(), RepoModule)
+	return p != nil && inRepoPath(p.Path())
 }
 
 // findRegexGlobals constant-folds package-level *regexp.Regexp variables to their pattern.
@@ -397,7 +406,7 @@ func ifaceSpecKey(c *ssa.CallCommon) (string, bool) {
 		return "", false
 	}
 	key := shortPath(n.Obj().Pkg().Path()) + ":" + n.Obj().Name() + "." + c.Method.Name()
-	if !strings.HasPrefix(n.Obj().Pkg().Path(), RepoModule) {
+	if !inRepoPath(n.Obj().Pkg().Path()) {
 		key = n.Obj().Pkg().Path() + "." + n.Obj().Name() + "." + c.Method.Name()
 	}
 	return key, true
@@ -433,6 +442,20 @@ func (w *World) MayEffect(f *ssa.Function) bool {
 	return res
 }
 
+// isEffectKey reports whether key names an operation declared `effect` (the key under which its calls are logged).
+func (w *World) isEffectKey(key string) bool {
+	if sp, ok := w.Specs[key]; ok {
+		return sp.Effect
+	}
+	// a function of the module given an assumed contract is logged under its short key, declared under its full name
+	if i := strings.Index(key, ":"); i >= 0 {
+		if sp, ok := w.Specs[RepoModule+"/"+key[:i]+"."+key[i+1:]]; ok {
+			return sp.Effect
+		}
+	}
+	return false
+}
+
 // BodyMayEffect: the body of f can append events (not counting the event of calling f itself when f is declared
 // `effect`).
 func (w *World) BodyMayEffect(f *ssa.Function) bool {
@@ -451,6 +474,11 @@ func (w *World) BodyMayEffect(f *ssa.Function) bool {
 }
 
 func (w *World) bodyMayEffect(f *ssa.Function) bool {
+	// a function given an assumed (`extern`) contract is opaque, like any other external: what happens inside it is
+	// not part of the trace of its callers (e.g. the generated composition root internal/gontainer)
+	if sp := w.SpecFor(f); sp != nil && sp.Kind == "extern" {
+		return false
+	}
 	res := false
 	for _, b := range f.Blocks {
 		if res {
@@ -494,7 +522,7 @@ func (w *World) bodyMayEffect(f *ssa.Function) bool {
 func (w *World) LocalsOf() map[string][][2]string {
 	out := map[string][][2]string{}
 	for _, p := range w.Pkgs {
-		if p.Types == nil || !strings.HasPrefix(p.Types.Path(), RepoModule) {
+		if p.Types == nil || !inRepoPath(p.Types.Path()) {
 			continue
 		}
 		q := func(o *types.Package) string { return o.Name() }
